@@ -427,11 +427,26 @@ class Explorer:
             # ignored and the full query below decides.
             sl = slice_constraints(self.pc, z3.Not(cond))
             if len(sl) < len(self.pc):
-                st0, be0, dt0, _ = solve(sl + [z3.Not(cond)], timeout_ms=getattr(self, "z3_timeout_ms", None), cvc5=False)
+                st0, be0, dt0, m0 = solve(sl + [z3.Not(cond)], timeout_ms=getattr(self, "z3_timeout_ms", None), cvc5=False)
                 self.solver_seconds += dt0
                 if st0 == "unsat":
                     self.results.append(Obligation(name, "proved", be0 + "/sliced", dt0, path=list(self.decisions[: self.pos])))
                     return
+                if st0 == "sat" and m0 is not None:
+                    # the dropped hypotheses share no symbol with the slice: a model of them (they are satisfiable on a
+                    # feasible path) and the slice's model combine into a counter-model of the full query
+                    keep_ids = {c.get_id() for c in sl}
+                    rest = [c for c in self.pc if c.get_id() not in keep_ids]
+                    st1, be1, dt1, m1 = solve(rest, timeout_ms=getattr(self, "z3_timeout_ms", None), cvc5=False)
+                    self.solver_seconds += dt1
+                    if st1 == "sat" and m1 is not None:
+                        live = set()
+                        for c in sl + [cond]:
+                            live |= _free_symbols(c)
+                        v0, v1 = self.model_values(m0), self.model_values(m1)
+                        merged = {k: (v0[k] if (k in live or k not in v1) else v1[k]) for k in v0}
+                        self.results.append(Obligation(name, "failed", be0 + "/sliced", dt0 + dt1, model=merged, path=list(self.decisions[: self.pos])))
+                        return
         # scenario option z3_timeout_ms: hand string-heavy queries to cvc5 sooner (portfolio order unchanged)
         status, backend, dt, model = solve(self.pc + [z3.Not(cond)], timeout_ms=getattr(self, "z3_timeout_ms", None))
         self.solver_seconds += dt
@@ -594,6 +609,8 @@ class Explorer:
             if self.paths >= self.max_paths:
                 self.undecided_paths.append(f"path budget {self.max_paths} exhausted")
                 break
+            if getattr(self, "stop_on_failure", False) and any(o.status == "failed" and o.model is not None for o in self.results):
+                break  # scenario option stop_on_failure (opt-in): a counter-model exists already; the verdict cannot improve
             prefix = self.worklist.pop()
             self.reset_path(prefix)
             vc = SymVC(self)
